@@ -156,3 +156,35 @@ PROPS['C06'] = dict(
         [dict(target='shared', family='shared', mode='random', cases=300000, workers=14, timeout=3000),
          dict(target='shared', family='shared', mode='dfs', bound=2, workers=14, timeout=3000, args=['--dfs-cap', '150000'])]),
 )
+
+WHEN_TEXT = ('Each of n (0..4) inputs is fulfilled (value / error / exception, payload distinct per input) by its own '
+             'fiber while the consumer fiber builds the combinator in one of the iterator / variadic x unique / shared '
+             '/ mixed / void / tuple forms and attaches an inline sink; schedules from the explorer. The logical-time '
+             'history is checked by a validity predicate: output exactly once with an allowed state, source and '
+             'per-index elements, not ready before the last input began, delivered by the deciding Set or the attach '
+             'call, first/last decisions only between inputs whose consume intervals do not overlap; Tracked payload and '
+             'heap balance prove every input was released exactly once; kept SharedFuture copies stay readable.')
+PROPS['C09'] = dict(
+    level='exploration', assumptions=FIBER_ASSUME,
+    technique='rapidcheck-generated (form, policy, n, outcomes, delay, schedule) cases + bounded-exhaustive schedules of '
+              'two-input programs; history validity predicate + release ledger',
+    level_text=WHEN_TEXT,
+    level_note='Oracle never orders inputs whose consume intervals overlap (implementation choice). SC interleavings only.',
+    jobs=q(
+        [dict(target='when', family='whenall', mode='random', cases=25000, workers=12, timeout=600),
+         dict(target='when', family='whenall', mode='dfs', bound=2, workers=4, timeout=600, args=['--dfs-cap', '8000'])],
+        [dict(target='when', family='whenall', mode='random', cases=400000, workers=14, timeout=3000),
+         dict(target='when', family='whenall', mode='dfs', bound=3, workers=12, timeout=3000, args=['--dfs-cap', '300000'])]),
+)
+PROPS['C10'] = dict(
+    level='exploration', assumptions=FIBER_ASSUME,
+    technique='rapidcheck-generated (form, policy, n, outcomes, delay, schedule) cases + bounded-exhaustive schedules of '
+              'two-input programs; history validity predicate + release ledger',
+    level_text=WHEN_TEXT,
+    level_note='Oracle never orders inputs whose consume intervals overlap (implementation choice). SC interleavings only.',
+    jobs=q(
+        [dict(target='when', family='whenany', mode='random', cases=25000, workers=12, timeout=600),
+         dict(target='when', family='whenany', mode='dfs', bound=2, workers=4, timeout=600, args=['--dfs-cap', '8000'])],
+        [dict(target='when', family='whenany', mode='random', cases=400000, workers=14, timeout=3000),
+         dict(target='when', family='whenany', mode='dfs', bound=3, workers=12, timeout=3000, args=['--dfs-cap', '300000'])]),
+)
